@@ -2,12 +2,14 @@
 # Evaluate a seeded change kept in a scratch worktree: tools/seed_eval.sh <worktree> <out-dir> <check ids...>
 # 1. demo fails with the patch, passes without  2. (optional BASELINE=1) baseline stays green  3. run the listed quick checks against the worktree's src
 wt=$1; out=$2; shift 2
+mkdir -p "$out"
 export PATH=/venv/bin:$PATH SEMGREP_ENABLE_VERSION_CHECK=0 SEMGREP_SEND_METRICS=off
 cd "$(dirname "$0")/.."
 [ -f "$wt/src/codemodder/_version.py" ] || cp /repo/src/codemodder/_version.py "$wt/src/codemodder/_version.py"
 if [ -f "$wt/_seed/demo.py" ]; then
   PYTHONPATH=$wt/src /venv/bin/python "$wt/_seed/demo.py" >/dev/null 2>&1; echo "demo with patch: exit=$? (want non-zero)"
-  git -C "$wt" stash -q -- src && { PYTHONPATH=$wt/src /venv/bin/python "$wt/_seed/demo.py" >/dev/null 2>&1; echo "demo without patch: exit=$? (want 0)"; git -C "$wt" stash pop -q; }
+  # (no git stash: the stash is shared by all worktrees of a repository and other sessions may be using it)
+  git -C "$wt" diff -- src > "$out.patch" && git -C "$wt" checkout -q -- src && { PYTHONPATH=$wt/src /venv/bin/python "$wt/_seed/demo.py" >/dev/null 2>&1; echo "demo without patch: exit=$? (want 0)"; git -C "$wt" apply "$out.patch"; }
 fi
 [ -n "$BASELINE" ] && /venv/bin/python tools/baseline_check.py "$wt" | head -5
 mkdir -p "$out"
